@@ -1051,6 +1051,60 @@ def bystander(res, hist):
                          text, list(CLOG), out[:100]), dict(part='bystander', text=text))
 
 
+def entry_paths(res, hist):
+    """a non-yaqlized host object inside the DATA a host hands over - as the document, nested in it, as a context
+    variable, as a YaqlInterface argument, with input conversion on and off - is never touched by the evaluation
+    machinery itself (conversion, `$` binding, finalisation) and never leaks a member"""
+    from yaql import yaql_interface
+    placements = [('itself', lambda c: c, '$'), ('in a list', lambda c: [1, c], '$[1]'), ('in a dict', lambda c: {'k': c}, '$.k'),
+                  ('in a tuple', lambda c: (c, 2), '$[0]'), ('nested', lambda c: {'k': [{'j': c}]}, '$.k[0].j'),
+                  ('dict value next to data', lambda c: {'a': [1, 2], 'c': c}, '$.c')]
+    exprs = ['{P}', '[{P}]', '{{r => {P}}}', '{P} = 1', 'list({P}, 1)', '[{P}].select($)', '[{P}].len()', 'isString({P})',
+             '$.len()', '$', 'dict(a => {P}).a', '{P} in [1]', 'bool({P})', 'coalesce(null, {P})', 'let(x => {P}) -> $x']
+    n = 0
+    for conv_in in (True, False):
+        eng = yaql.YaqlFactory().create(options={'yaql.convertInputData': conv_in})
+        for pname, place, path in placements:
+            for tmpl in exprs:
+                expr = tmpl.replace('{P}', path)
+                for entry in ('evaluate(data)', 'create_context(data)', 'context variable', 'YaqlInterface positional',
+                              'YaqlInterface keyword'):
+                    c = Canary('entry')
+                    data = place(c)
+                    del LOG[:]
+                    try:
+                        if entry == 'evaluate(data)':
+                            out = eng(expr).evaluate(data=data, context=yaql.create_context())
+                        elif entry == 'create_context(data)':
+                            out = eng(expr).evaluate(context=yaql.create_context(data=data))
+                        elif entry == 'context variable':
+                            ctx = yaql.create_context()
+                            ctx['$v'] = data
+                            out = eng(expr.replace('$', '$v')).evaluate(context=ctx)
+                        elif entry == 'YaqlInterface positional':
+                            yi = yaql_interface.YaqlInterface(yaql.create_context(), eng)
+                            out = yi(expr.replace('$', '$1'), data)
+                        else:
+                            yi = yaql_interface.YaqlInterface(yaql.create_context(), eng)
+                            out = yi(expr.replace('$', '$v'), v=data)
+                        out = repr(out)
+                    except Exception as x:      # noqa
+                        out = '%s: %s' % (type(x).__name__, x)
+                    n += 1
+                    hist['entry:' + entry] = hist.get('entry:' + entry, 0) + 1
+                    res.case('entry:%s:%s:%s:%s' % (entry, pname, conv_in, expr))
+                    log = list(LOG)
+                    if log or SECRET in out:
+                        res.fail('oracle', 'entry-reached',
+                                 'a non-yaqlized host object handed over %s through %s (yaql.convertInputData=%s) was '
+                                 'reached while evaluating %s: access log %r, outcome %s' % (
+                                     pname, entry, conv_in, expr, log[:6], out[:120]),
+                                 dict(part='entry', entry=entry, placement=pname, conv_in=conv_in, expr=expr))
+                        if sum(1 for f in res.failures if f.key == 'entry-reached') >= 3:
+                            return n
+    return n
+
+
 def lexer_guard(res, hist):
     """a keyword token cannot start with `__` (dynamic side of C07Gen.keyword_guard): `$o.__dx__` does
     not parse, while `$o._x` parses and is refused by the underscore rule"""
@@ -1092,6 +1146,8 @@ def run(env, res):
             res.extra['settings_histogram'] = run_settings(env, res, only=rp)
         elif rp.get('part') == 'A':
             res.extra['sweep_histogram'] = run_sweep(env, res, only=rp)
+        elif rp.get('part') == 'entry':
+            entry_paths(res, dict(evaluations=0))
         elif rp.get('part') == 'bystander':
             h = run_settings(env, res)
             bystander(res, h)
@@ -1101,6 +1157,7 @@ def run(env, res):
     hb = run_settings(env, res)
     bystander(res, hb)
     lexer_guard(res, hb)
+    hb['evaluations'] += entry_paths(res, hb)
     res.extra['settings_histogram'] = hb
     ha = run_sweep(env, res)
     res.extra['sweep_histogram'] = ha
